@@ -54,7 +54,8 @@ func c28Scenario() *explore.Scenario {
 	lens := c28Lengths()
 	positions := []int{0, 1, 2, 300}
 	return &explore.Scenario{
-		Name: "keystream-vs-next-record",
+		Name:     "keystream-vs-next-record",
+		Watchdog: 20 * time.Second, HangSig: "C28|hang|a-call-after-GetOutKeystream-never-returns",
 		Run: func(x *explore.X) (r explore.Result) {
 			s := c28Suites[x.Choose("suite", len(c28Suites))]
 			pos := positions[x.Choose("position", len(positions))]
@@ -188,7 +189,8 @@ func c28Scenario() *explore.Scenario {
 // peer must receive the same bytes.
 func c28Framing() *explore.Scenario {
 	return &explore.Scenario{
-		Name: "framing-with-and-without-the-call",
+		Name:     "framing-with-and-without-the-call",
+		Watchdog: 20 * time.Second, HangSig: "C28|hang|a-call-after-GetOutKeystream-never-returns",
 		Run: func(x *explore.X) (r explore.Result) {
 			s := c28Suites[x.Choose("suite", len(c28Suites))]
 			n := []int{0, 1, 100, 2000, 16384}[x.Choose("n", 5)]
